@@ -111,12 +111,14 @@ Proof.
   destruct (fR a), (fR b), (fW a), (fW b), (fA a), (fA b), (fC a), (fC b); cbn; intuition congruence.
 Qed.
 
+Lemma prune_bit (s o n : bool) : (s = true -> o = true) -> s && negb (o && negb n) = true -> n = true.
+Proof. destruct s, o, n; cbn; intuition congruence. Qed.
+
 Lemma fl_sub_prune sel old new :
   fl_sub sel old = true -> fl_sub (fl_diff sel (fl_diff old new)) new = true.
 Proof.
-  rewrite !fl_sub_spec. unfold fl_diff. cbn [fR fW fA fC].
-  destruct (fR sel), (fR old), (fR new), (fW sel), (fW old), (fW new), (fA sel), (fA old), (fA new), (fC sel), (fC old), (fC new);
-    cbn; intuition congruence.
+  rewrite !fl_sub_spec. unfold fl_diff. cbn [fR fW fA fC]. intros (H1 & H2 & H3 & H4).
+  repeat split; apply prune_bit; assumption.
 Qed.
 
 Lemma unmap_sub n events : fl_sub (unmap_events n events) events = true.
